@@ -13,6 +13,9 @@ CHECK_DEADLOCK FALSE
 TRACE_CFG = "SPECIFICATION TraceSpec\nPOSTCONDITION TraceAccepted\nCHECK_DEADLOCK FALSE\n"
 
 
+REPLAY = ("TraceEmbed", TRACE_CFG)
+
+
 def signature(ev):
     if ev["op"] == "load":
         kind = ev["file"].split()[0]
